@@ -57,7 +57,7 @@ var specs = []*PropSpec{
 			m.SearchAbsent, m.SearchPresent, m.DeleteAbsent, m.Overwrite = 0, 0, 1, 1
 		}),
 		Profiles:  []string{"dense", "dense", "fan", "fan", "deep", "nul"},
-		CollProfs: []string{"plaintext"},
+		CollProfs: []string{"plaintext", "plaintext", "textfan"},
 		Templates: []string{"prefixsibling", "prefixsibling", "longpath", "fanupdown"},
 		KindOf: func(t *rapid.T) Kind {
 			if drawInt(t, 0, 2, "c04fam") < 2 {
@@ -117,7 +117,7 @@ var specs = []*PropSpec{
 			AuditOps: []string{"scan", "sweep"}, AuditEvery: 5, ExcludeKF: true, Census: true},
 		Mix:       withMix(baseMix, func(m *Mix) { m.Scan = 2 }),
 		Families:  []string{"collation"},
-		CollProfs: []string{"text", "text", "text", "text", "deep", "fan"},
+		CollProfs: []string{"text", "text", "text", "text", "deep", "fan", "textfan", "textfan"},
 		Templates: []string{"longpath", "emptied"},
 		Rule: "histories on collation trees for 12 collator configurations x string/[]byte (and []rune with the default collator) over text mixing case, accents, digits, scripts and long stems; the order oracle is CompareString of an independent collator instance; " +
 			"non-trivial = two simultaneously stored keys have equal primary weights (differ only at secondary/tertiary level) and the history contains a successful delete; distinct by trace hash",
@@ -205,7 +205,7 @@ var specs = []*PropSpec{
 			return MustKind("coll:" + pick(t, []string{"und", "de", "ic"}, "ccfg") + ":bytes")
 		},
 		Profiles:  []string{"dense", "dense", "deep", "fan"},
-		CollProfs: []string{"text", "plaintext"},
+		CollProfs: []string{"text", "plaintext", "textfan"},
 		Templates: []string{"longpath"},
 		Rule: "[]byte-keyed byte-string and collation trees; every key argument of Insert/Search/Delete/Prefix/Range is a sub-slice buf[off:off+len:off+len+spare] of one caller-owned arena (spare 0..3 bytes of live caller data); after every call the whole arena must be unchanged, then it is overwritten with a different pattern and the tree must still contain exactly the model; " +
 			"non-trivial = at least one call received spare capacity holding live data and a later audit compared the tree with the model after the arena was overwritten; distinct by trace hash",
